@@ -352,6 +352,26 @@ impl Iterator for Lexer {
                     self.source_id,
                 ))
             }
+            // A number that starts with its decimal point (`.float .5`)
+            Some('.') if self.peek(1).is_some_and(|c| c.is_ascii_digit()) => {
+                let start = self.get_pos();
+                let mut number = String::new();
+                while let Some(current) = self.current() {
+                    number.push(current);
+                    match self.peek(1) {
+                        Some(next) if Self::is_symbol_item(next) => self.consume_char(),
+                        _ => break,
+                    }
+                }
+                let end = self.get_pos();
+                self.consume_char();
+                Some(Token::new(
+                    TokenType::Symbol(number.clone()),
+                    number,
+                    Range::new(start, end),
+                    self.source_id,
+                ))
+            }
             Some('.') => {
                 // directive
                 let start = self.get_pos();
@@ -566,7 +586,7 @@ impl Iterator for Lexer {
                                 .chars()
                                 .all(|c| c.is_ascii_digit())
                                 && symbol_str.ends_with(|c: char| c.is_ascii_digit())
-                                && self.peek(2).is_some_and(|c| c.is_ascii_digit()) =>
+                                && !self.peek(2).is_some_and(Self::is_symbol_char) =>
                         {
                             self.consume_char();
                         }
